@@ -6,7 +6,7 @@ fn main() {
     let a = Mutex::new(0);
     let b = Mutex::new(1);
     let mut c = RetryingLockCollection::try_new((&a, &b)).unwrap();
-    *c.child_mut() = (&a, &a); //~ ERROR E0277
+    *c.child_mut() = (&a, &a); //~ ERROR E0277|E0599
     let mut o = RetryingLockCollection::new((Mutex::new(0), Mutex::new(1)));
     *o.child_mut() = (Mutex::new(2), Mutex::new(3));
     drop((c, o));
